@@ -20,7 +20,8 @@ func init() {
 // parseEntryPoints: the functions that turn file content into a configuration.
 func parseEntryPoints(c *Ctx) []*ssa.Function {
 	var out []*ssa.Function
-	for _, spec := range [][2]string{{pkgConfig, "ParseData"}, {pkgConfig, "readDeviceConfig"}, {pkgMain, "LoadHIDIConfig"}} {
+	// (the loader that walks the four directories belongs to "reading a device configuration": a hang or panic there is one too)
+	for _, spec := range [][2]string{{pkgConfig, "ParseData"}, {pkgConfig, "readDeviceConfig"}, {pkgMain, "LoadHIDIConfig"}, {pkgConfig, "LoadDeviceConfigs"}} {
 		fn := c.P.Func(spec[0], "", spec[1])
 		if c.Require(fn != nil, "R9.0", "anchor:"+spec[1], "entry point "+spec[1]+" not found") {
 			out = append(out, fn)
@@ -159,7 +160,7 @@ func freeVarBinding(fv *ssa.FreeVar) ssa.Value {
 
 func checkC09(c *Ctx) {
 	roots := parseEntryPoints(c)
-	if len(roots) != 3 {
+	if len(roots) != 4 {
 		return
 	}
 	fns, dyn := parseReachable(c.P, roots)
@@ -174,7 +175,28 @@ func checkC09(c *Ctx) {
 	c.importRules(noSharedStateRules, []string{"R16.5"}, "R9.10") // loading is a function of the files: no package-level state written at run time
 	ruleDecoderGuard(c, fns)
 	ruleTermination(c, fns)
-	ruleErrorsReturned(c, fns)
+	// (errors are returned by the functions that turn ONE file into a configuration; the directory loader above them reports
+	// a file's error and goes on with the next file - that is C12's isolation)
+	var loaderOnly = map[*ssa.Function]bool{}
+	if ld := c.P.Func(pkgConfig, "", "LoadDeviceConfigs"); ld != nil {
+		perFile, _ := parseReachable(c.P, roots[:3])
+		inPerFile := map[*ssa.Function]bool{}
+		for _, f := range perFile {
+			inPerFile[f] = true
+		}
+		for _, f := range fns {
+			if !inPerFile[f] {
+				loaderOnly[f] = true
+			}
+		}
+	}
+	var perFileFns []*ssa.Function
+	for _, f := range fns {
+		if !loaderOnly[f] {
+			perFileFns = append(perFileFns, f)
+		}
+	}
+	ruleErrorsReturned(c, perFileFns)
 	c.MinCount("R9.1", 15)
 	c.MinCount("R9.2", 2)
 	c.MinCount("R9.3", 6)
